@@ -247,6 +247,20 @@ impl<'a> SemanticBuilder<'a> {
         }
     }
 
+    /// UTF-16 length of a line without its terminator, so that the pieces of a token that spans
+    /// lines stay inside their lines.
+    fn line_length(&self, line: u32) -> u32 {
+        match self.document.get_line_range(line as usize) {
+            Some(range) => self
+                .document
+                .get_text_slice(range)
+                .trim_end_matches(['\r', '\n'])
+                .encode_utf16()
+                .count() as u32,
+            None => 0,
+        }
+    }
+
     fn push_data(&mut self, range: TextRange, typ: u32, modifiers: u32) {
         let position = range.start();
         if !self.seen_positions.insert(position) {
@@ -271,7 +285,7 @@ impl<'a> SemanticBuilder<'a> {
             multi_line_data.push(BasicSemanticTokenData {
                 line: start_line,
                 col: start_col,
-                length: 9999,
+                length: self.line_length(start_line).saturating_sub(start_col),
                 typ,
                 modifiers,
             });
@@ -280,7 +294,7 @@ impl<'a> SemanticBuilder<'a> {
                 multi_line_data.push(BasicSemanticTokenData {
                     line: i,
                     col: 0,
-                    length: 9999,
+                    length: self.line_length(i),
                     typ,
                     modifiers,
                 });
